@@ -7,6 +7,8 @@ between interval functions are typed as enclosures (this is what pins the
 rounding direction of mpci_gamma's corner values), plus C-R8: the operator
 machinery of iv.mpf/iv.mpc passes operands to the kernels in the right order.
 Corner selection and the excluded region of gamma are not decided.
+C-R9 (sa/stale_pack.py): a packed rectangle is not used after one of its unpacked
+endpoints was recomputed and before it is rebuilt.
 """
 import ast
 
@@ -14,6 +16,7 @@ from ..index import AnalysisError, norm
 from ..prec_effect import _walk_own
 from ..report import Finding
 from .c14 import common
+from ..stale_pack import check_stale_packs, StaleScan
 
 CTXIV = 'mpmath/ctx_iv.py'
 
@@ -34,6 +37,12 @@ def run(run, ix, tier):
     run.rule('C-R8', floor=8, desc='operator machinery: operand order and kernel pairing')
     common(run, ix, complex_=True)
     check_binary_op(run, ix)
+    run.rule('C-R9', floor=20, desc='packed rectangle and unpacked endpoints stay in sync')
+    t = StaleScan()
+    t.scan(ast.parse('(a1, a2), (b1, b2) = z\n(a1, a2) = mpi_add((a1, a2), mpi_one, wp)\nw = mpci_div(u, z, prec)').body, {}, {})
+    if len(t.findings) != 1:
+        raise AnalysisError('C-R9 detector does not recognise its positive example')
+    check_stale_packs(run, ix, 'C-R9', prefix='mpci_')
 
 
 def check_binary_op(run, ix):
